@@ -793,7 +793,7 @@ def file_to_tree(f: ModelicaFile) -> ast.Tree:
     insert_node = root
     if f.within:
         for p in f.within[0].to_tuple():
-            package = ast.Class(name=p, type="package")
+            package = ast.Class(name=p, type="package", within_placeholder=True)
             insert_node.classes[p] = package
             insert_node = package
 
